@@ -39,6 +39,11 @@ var verifC03FilterSrc = []string{
 	"select id, (select count(*) from a as z where z.k < a.k) from a",                     // 9
 	"with c as (select id, k from a) select y.id from (select id, k from c where k >= @x) x cross join c y where x.id = y.id or y.id = 0", // 10: CTE read twice
 	"with c as (select k, id from a) select id from c where k < @x union all select id from c", // 11
+	"select id from a where k not in (select z.k from a as z where z.k >= @x)",            // 12: the list may be empty, k may be NULL
+	"select id from a where k <> all (select z.k from a as z where z.k >= @x)",            // 13
+	"select id from a where not (k = any (select z.k from a as z where z.k >= @x))",       // 14
+	"select id from a where k not in (select z.k from a as z where z.k > a.k)",            // 15: correlated; for a NULL k the list is empty
+	"select id from a where not exists (select 1 from a as z where z.k > a.k)",            // 16
 }
 
 var verifC03Joins, verifC03Filters []parser.SelectQuery
@@ -265,6 +270,37 @@ func VerifC03FilterProject() {
 		}
 		for i := 0; i < n; i++ {
 			want = append(want, i)
+		}
+	case 12, 13, 14:
+		// the list holds the non-NULL keys >= x: over an empty list NOT IN / <> ALL are TRUE for every row,
+		// also for a NULL key; otherwise TRUE iff the key is not NULL and not in the list
+		empty := true
+		for i := 0; i < n; i++ {
+			if ge(ks[i], x) {
+				empty = false
+			}
+		}
+		for i := 0; i < n; i++ {
+			if empty || lt(ks[i], x) {
+				want = append(want, i)
+			}
+		}
+	case 15:
+		// the list of row i holds keys greater than its own (none for a NULL key): never equal, never NULL
+		for i := 0; i < n; i++ {
+			want = append(want, i)
+		}
+	case 16:
+		for i := 0; i < n; i++ {
+			greater := false
+			for j := 0; j < n; j++ {
+				if !ks[i].null && !ks[j].null && ks[j].v > ks[i].v {
+					greater = true
+				}
+			}
+			if !greater {
+				want = append(want, i)
+			}
 		}
 	case 8:
 		want = append(want, 1)
